@@ -298,7 +298,7 @@ from pycv.wp.explore import check_valid, explore, named  # noqa: E402
 from pycv.wp.interp import Obj, OutsideSubset, PyRaise, Sym, World  # noqa: E402
 from pycv.wp.numext import NUM_EXT  # noqa: E402
 
-QUICK_PATHS = ["GX", "GXM", "GXMG", "GXMGR", "GX,MR", "GXM,RG", "G,X"]
+QUICK_PATHS = ["GX", "GXM", "GXMG", "GXMGR", "GX,MR", "GXM,RG"]
 THOROUGH_PATHS = QUICK_PATHS + ["GXMGRX", "GX,MR,XG"]
 
 
